@@ -53,6 +53,7 @@ var namedWitnesses = map[string]interface{}{
 	"C12/non-identifier-member-property-accepted": c12Of("delete#2", "", "a", " stmt", "", ".", "", "", "b", "", "", "(", " open", "", "c", "", "", ")", " close", "", ";", "term"),
 	"C12/return-outside-function-accepted":        c12Of("delete#0", "", "function", " stmt", " ", "a", "", "", "(", " open", "", ")", " close", "\n", "{", " open", "", "return", " stmt", "", ";", "term", "", "}", " close"),
 	"C12/declaration-as-body-accepted":            c12Of("delete#4", "", "while", " stmt", "", "(", " open", "", "a", "", "", ")", " close", "", "a", " stmt", " ", "", "term", "\n", "let", " stmt", " ", "a", "", "", "", "term"),
+	"C15/empty-comment-dropped":                   c15Case{Src: "let a;\n//\nlet b; //\n", Empty: true},
 	"C15/eof-comments-dropped":                    c15Case{Src: "let a; //#1# x\n//#2# y\n", Src2: "let a; //#1# p\n//#2# q\n", Plain: "let a;\n\n", Comments: []c15Comment{{Marker: 1, Text: "#1# x", Text2: "#1# p", Trailing: true, Next: ""}, {Marker: 2, Text: "#2# y", Text2: "#2# q", Next: ""}}},
 	"C07/escaped-digit":                           c07Case{Lits: []c07Lit{{Src: "\"\\0\\u{30}\""}}},
 }
